@@ -1,4 +1,7 @@
--- Root of the `ThriftVerif` library: imports every model, proof, fact and property module.
+-- Root of the `ThriftVerif` library. It imports the wire-level modules only: the property modules
+-- (`ThriftVerif/Properties/C01 … C20`) and the fact / expectation modules are separate build targets —
+-- `bin/setup` and every `bin/check` run build them by name — because some proof modules of different
+-- properties reuse short names (e.g. `Proto.keys`) and cannot be imported into one file.
 import ThriftVerif.Wire.Bytes
 import ThriftVerif.Wire.Value
 import ThriftVerif.Wire.Text
